@@ -110,6 +110,16 @@ fn op_name(op: u64) -> &'static str {
 	OP_NAMES.get(op as usize).copied().unwrap_or("?")
 }
 
+/// Second look at a stalled process (see `vcommon::vcommon::monitor::deadlock_confirmed_in_place`).
+fn confirm_in_place(gdb_file: &str) -> (bool, String) {
+	if gdb_file.is_empty() {
+		return (false, "no thread dump".into());
+	}
+	let txt = std::fs::read_to_string(gdb_file).unwrap_or_default();
+	let progress = || PROGRESS.iter().map(|p| p.load(Ordering::SeqCst)).fold(0u64, |a, b| a.wrapping_add(b));
+	vcommon::monitor::deadlock_confirmed_in_place(&progress, &txt, 20)
+}
+
 /// Watches the per-thread progress counters. No progress of ANY thread for
 /// `hang_s` seconds while a run is active: dump all-thread backtraces with gdb,
 /// record the hang in the worker result and end the process.
@@ -189,7 +199,8 @@ fn monitor(run: &Run, hang_s: u64, use_gdb: bool, is_worker: bool) {
 				Err(e) => gdb_note = format!("gdb could not be started: {}", e),
 			}
 		}
-		let info = json!({"k": k, "rep": rep, "long": long, "stuck_ops": ops, "no_progress_s": hang_s, "gdb": gdb_note, "gdb_file": gdb_file});
+		let (in_place, seen) = confirm_in_place(&gdb_file);
+		let info = json!({"k": k, "rep": rep, "long": long, "stuck_ops": ops, "no_progress_s": hang_s, "gdb": gdb_note, "gdb_file": gdb_file, "confirmed_in_place": in_place, "confirmation": seen});
 		eprintln!("C17-HANG {}", info);
 		run.count("hangs_detected", 1);
 		run.extra("hang", info.clone());
@@ -2551,6 +2562,21 @@ fn main() {
 			continue;
 		}
 		let k = h["k"].as_u64().unwrap_or(0);
+		if h["confirmed_in_place"].as_bool() == Some(true) {
+			let mut opsv: Vec<&str> = h["stuck_ops"].as_array().map(|a| a.iter().filter_map(|x| x.as_str()).collect::<Vec<_>>()).unwrap_or_default();
+			opsv.dedup();
+			run.violation(
+				&format!("C17;world={};clause=deadlock", phase),
+				&format!(
+					"no thread made progress for 60 s and the stalled process was a deadlock beyond doubt ({}); threads stuck in: {}; backtraces: {}",
+					h["confirmation"].as_str().unwrap_or("-"),
+					opsv.join("+"),
+					h["gdb_file"].as_str().unwrap_or("-")
+				),
+				json!({"first": h, "reproduce": format!("c17 --tier {} --seed {} --worker 0 1 --phase {} --only-run {}", run.tier.name(), run.seed, phase, k)}),
+			);
+			continue;
+		}
 		let mut extra: Vec<String> = vec!["--phase".into(), phase.clone(), "--n".into(), (k + 1).to_string(), "--only-run".into(), k.to_string(), "--deadline".into(), "100000".into()];
 		if phase == "long" {
 			extra.extend(["--dir".to_string(), dir.clone(), "--worlds".to_string(), n_long_worlds.to_string()]);
